@@ -14,6 +14,10 @@ def engine_for(key, schema, **kw):
     """one cooked engine per (key) per worker process"""
     e = _ENGINES.get(key)
     if e is None:
+        if kw.pop("layout", None) == "extend":
+            # the same schema written as base definitions plus `extend` blocks (last field / member / value of every type moved out)
+            from vf import schema_rewrite as SR
+            kw["sdl"] = "\n\n".join(SR.sdl_parts(schema, True)) + "\n"
         e = harness.build_engine(schema, **kw)
         _ENGINES[key] = e
     return e
